@@ -74,7 +74,7 @@ kf("K6-C01", "D5 list-after-bracket-unbreakable", "C01", r"^C01\|tree\|(spine=(s
 K13 = "a lone '-' next to the closing ']' of a content block whose last element is a list item: as plain text ('-]') it becomes an empty item when the bracket is moved to its own line; as an empty item ('- ]') it becomes plain text when the blank before ']' is dropped"
 kf("K13-C02", "lone marker next to ']'", "C02", r"^C02\|rendering-differs\|(spine|dev=.*\|at)=\S*/list_nest_empty", PRELUDE + "#{\n  [- foo\n    -]\n}", K13, "rendering-differs")
 kf("K13-C13", "lone marker next to ']'", "C13", r"^C13\|splice-changes-tree\|(spine|dev=.*\|at|extra=damage:\w+@\d+:\S*)[=/]\S*list_nest_empty", "#g[\n  - foo\n    -]", K13 + " (range formatting of the call or the document)", "splice-changes-tree")
-kf("K8m-C03", "block comment with a blank-only line inside math call arguments", "C03", r"^C03\|not-idempotent\|(.*&)?dev=math:Args>(FuncCall|Named|Spread)\[[^\]]*\]:bc_ws_line", "$fn(k/*c1\n    d\n  \n    e*/: x)$", "a multi-line block comment with a whitespace-only line inside the arguments of a math function call, at a width where the call just fits: the first pass breaks the arguments, the second (which sees the blank line emptied by the trailing-blank pass) keeps them on one line", "not-idempotent")
+kf("K8m-C03", "block comment with a blank-only line inside math call arguments", "C03", r"^C03\|not-idempotent\|(.*&)?dev=math:[^|&]*:bc_ws_line\|at=[^|]*m_fn", "$fn(k/*c1\n    d\n  \n    e*/: x)$", "a multi-line block comment with a whitespace-only line inside the arguments of a math function call, at a width where the call just fits: the first pass breaks the arguments, the second (which sees the blank line emptied by the trailing-blank pass) keeps them on one line", "not-idempotent")
 kf("K13-C01", "lone marker-like text before ']'", "C01", r"^C01\|tree\|(spine|dev=.*\|at)=\S*/list_nest_empty", "#{\n  [- foo\n    -]\n}", "a lone '-' (or '+', '=') that is plain text because ']' follows it directly, at the start of the last line of a multi-line content block whose last element is a list item: the closing bracket is moved to its own line (the repair of P14) and the token becomes an empty list item", "tree")
 
 # --------------------------------------------------------------------------- K7: parentheses around a literal removed before text (P1)
@@ -142,6 +142,10 @@ FIXED = [
   fixed("C05", "do not reserve memory for as many cells as the 'columns' argument of a table says", "'#table(columns: 9223372036854775807, [a])' panicked with a capacity overflow (reported as a side remark by a seeding sub-agent; the numeric-limits family now finds it)"),
   fixed("C04", "break the line after a line comment that follows the colon of an import", "'#(import \"a.typ\": // c<newline>(a, b))': the comment swallowed the items and the closing parenthesis (also C06; side remark of a sub-agent; production paren_stmt now reaches it)"),
   fixed("C01", "keep the colon of a term item with an empty term apart from the marker", "'/ : desc' was printed as '/: desc', plain text (also C08; side remark of a sub-agent; degenerate block productions now reach it)"),
+  fixed("C01", "keep the trailing content blocks of a set rule", "'#set text(red)[abc]' was printed as '#set text(red)': the content argument was dropped (also C02; side remark of a sub-agent; productions set_trailing / set_content now reach it)"),
+  fixed("C04", "wrap a closure body that holds a line comment in parentheses, not braces", "'#g(x => v = // c<newline>a)': the body was put between braces, where the line break after the comment ends the statement (also C01: 'return // c<newline>a' lost its value; found by the new closure-body productions)"),
+  fixed("C04", "keep math argument separators apart from a backslash or a hashed expression before them", "'$vec(a \\ )$' -> '$vec(a \\)$' (escaped parenthesis), '#a ;' in a 2D row lost its blank (also C01 C09; side remark of a sub-agent; real math calls were missing from the model until then)"),
+  fixed("C03", "do not print a blank for the empty parentheses of an import without items", "'{ import \"m.typ\": () }' gained two blanks, the next run removed one"),
   fixed("C01", "do not break a content block that holds nothing but block comments", "'a#[/*c*/]b' was printed with the comment on its own line: empty content became a blank (also C02 C08)"),
 ]
 
